@@ -24,6 +24,7 @@ func main() {
 	replay := fs.String("replay", "", "replay a history file instead of generating")
 	blocks := fs.Int("blocks", 12, "blocks per history")
 	repo := fs.String("repo", "/repo", "path of the repository (translator)")
+	conc := fs.Int("conc", 0, "node profile: number of background query goroutines")
 	must(fs.Parse(os.Args[2:]))
 	if *out == "" {
 		fmt.Fprintln(os.Stderr, "-out required")
@@ -34,23 +35,25 @@ func main() {
 	case "gen":
 		runGen(*out, *repo)
 	case "aol":
-		runChainProfile(profileSpec{"aol", genAolHistory, func() []Monitor {
+		runChainProfile(profileSpec{name: "aol", gen: genAolHistory, monitors: func() []Monitor {
 			return []Monitor{&aolRecordMonitor{}, &aolAuthMonitor{}, &aolCounterMonitor{}, &feeMonitor{}, &burnMonitor{}}
 		}}, *seed, *n, *out, *replay, *blocks)
 	case "aollist":
-		runChainProfile(profileSpec{"aollist", genAolListHistory, func() []Monitor { return []Monitor{&aolCounterMonitor{}} }}, *seed, *n, *out, *replay, *blocks)
+		runChainProfile(profileSpec{name: "aollist", gen: genAolListHistory, monitors: func() []Monitor { return []Monitor{&aolCounterMonitor{}} }}, *seed, *n, *out, *replay, *blocks)
 	case "burn":
-		runChainProfile(profileSpec{"burn", genBurnHistory, func() []Monitor { return []Monitor{&burnMonitor{}, &feeMonitor{}} }}, *seed, *n, *out, *replay, *blocks)
+		runChainProfile(profileSpec{name: "burn", gen: genBurnHistory, monitors: func() []Monitor { return []Monitor{&burnMonitor{}, &feeMonitor{}} }}, *seed, *n, *out, *replay, *blocks)
 	case "pnft":
-		runChainProfile(profileSpec{"pnft", genPnftHistory, func() []Monitor { return []Monitor{newPnftMonitor(), &feeMonitor{}} }}, *seed, *n, *out, *replay, *blocks)
+		runChainProfile(profileSpec{name: "pnft", gen: genPnftHistory, monitors: func() []Monitor { return []Monitor{newPnftMonitor(), &feeMonitor{}} }}, *seed, *n, *out, *replay, *blocks)
+	case "node":
+		runChainProfile(profileSpec{name: "node", gen: genNodeHistory, monitors: func() []Monitor { return nil }, node: true, conc: *conc}, *seed, *n, *out, *replay, *blocks)
 	case "total":
-		runChainProfile(profileSpec{"total", genTotalHistory, func() []Monitor { return []Monitor{&feeMonitor{}} }}, *seed, *n, *out, *replay, *blocks)
+		runChainProfile(profileSpec{name: "total", gen: genTotalHistory, monitors: func() []Monitor { return []Monitor{&feeMonitor{}} }}, *seed, *n, *out, *replay, *blocks)
 	case "keystore":
 		runKeystore(*seed, *n, *out)
 	case "valid":
 		runValid(*seed, *n, *out, *replay)
 	case "did":
-		runChainProfile(profileSpec{"did", genDidHistory, func() []Monitor { return []Monitor{newDidMonitor(), &feeMonitor{}} }}, *seed, *n, *out, *replay, *blocks)
+		runChainProfile(profileSpec{name: "did", gen: genDidHistory, monitors: func() []Monitor { return []Monitor{newDidMonitor(), &feeMonitor{}} }}, *seed, *n, *out, *replay, *blocks)
 	case "compkey":
 		runCompkey(*seed, *n, *out, *replay)
 	default:
